@@ -38,6 +38,7 @@ import pathlib
 import random
 import shutil
 import tempfile
+from fractions import Fraction
 
 from . import pipeline_gen as pg
 from .common import Collector
@@ -404,6 +405,215 @@ def prefix_cases(tier, rng):
                 for k, mp in enumerate(maps):
                     yield {"input": inp, "map": mp, "prefix": "SUPER_", "via": pg.pick_via(inp, i + k)}
 
+# --------------------------------------------------------------------------------------------------
+# outside families: joins and breaks that lie in no haplotype assembly (prefix inputs, tagged groups)
+# --------------------------------------------------------------------------------------------------
+
+# what the pieces of the edited group carry: a removal tag, nothing, or the name of a haplotype no input contig is named for
+OUTSIDE_TAGS = (["Contaminant"], ["FalseDuplicate"], ["Haplotig"], [], ["Mat"])
+
+
+def whole_piece(sc, bpt):
+    (piece,) = pg.pieces_of(sc, bpt, "ceil", ())
+    return piece
+
+
+def joined_map(inp, bpt, a, b, strands, tags, painted):
+    """every input scaffold whole in its own Pretext scaffold, but scaffolds a and b together in one, both pieces tagged `tags`"""
+    scs = []
+    for k, sc in enumerate(inp):
+        if k == b:
+            continue
+        if k == a:
+            t = (["Painted"] if painted else []) + list(tags)
+            scs.append([[*whole_piece(inp[a], bpt), strands[0], list(t)], [*whole_piece(inp[b], bpt), strands[1], list(t)]])
+        else:
+            scs.append([[*whole_piece(sc, bpt), 1, []]])
+    return {"bpt": bpt, "scaffolds": scs}
+
+
+def broken_map(inp, bpt, a, tags, swap):
+    """
+    every input scaffold whole, but scaffold a split behind each of its contigs but the last (the gap rows that follow
+    go with the next piece), every piece in its own Pretext scaffold and tagged `tags`; `swap`: the pieces in reverse order
+    """
+    scs = []
+    for k, sc in enumerate(inp):
+        if k != a:
+            scs.append([[*whole_piece(sc, bpt), 1, []]])
+            continue
+        ends = []
+        pos = 0
+        for r in sc["rows"]:
+            pos += pg.row_len(r)
+            if r[0] == "F":
+                ends.append(pos)
+        total = max(pos, whole_piece(sc, bpt)[2])
+        edges = [0, *ends[:-1], total]
+        pieces = [[[sc["name"], x + 1, y, 1, list(tags)]] for x, y in itertools.pairwise(edges)]
+        scs.extend(reversed(pieces) if swap else pieces)
+    return {"bpt": bpt, "scaffolds": scs}
+
+
+def tag_source(mp, name, tags):
+    """the map with `tags` added to every piece taken from input scaffold `name`"""
+    return {"bpt": mp["bpt"], "scaffolds": [[[*p[:4], list(p[4]) + (list(tags) if p[0] == name else [])] for p in sc] for sc in mp["scaffolds"]]}
+
+
+def outside_cases(tier, rng):
+    """
+    prefix inputs (quick: (2, 2) HAP1/HAP2 and (2, 1, 1) HAP1/HAP2/none, two interleavings each; thorough: every count
+    vector with <= 4 scaffolds in all, every prefix set, every interleaving) x
+      joined  every pair of scaffolds (quick: two pairs per input, rotating) in one Pretext scaffold, orientations
+              rotating, both pieces tagged alike from OUTSIDE_TAGS (quick: two tag sets per pair, rotating)
+      broken  each multi-contig scaffold (quick: one) split at its gaps, the pieces tagged alike
+      source  seeded edit scripts in which every piece of one input scaffold carries the tag
+    """
+    quick = tier == "quick"
+    if quick:
+        plans = [((2, 2), PREFIX_SETS[0]), ((2, 1, 1), PREFIX_SETS[1])]
+    else:
+        vectors = [c for n in (2, 3) for c in itertools.product((1, 2, 3), repeat=n) if sum(c) <= 4]
+        plans = [(c, ps) for c in vectors for ps in PREFIX_SETS if len(ps) >= len(c)]
+    orient = list(itertools.product((1, -1), repeat=2))
+    i = 0
+    for counts, prefixes in plans:
+        orders = label_orders(counts)
+        if quick:
+            orders = [orders[0], orders[len(orders) // 2]]
+        for order in orders:
+            for naming in ("fasta", "own") if quick else ("fasta", "own", "first"):
+                i += 1
+                inp = prefix_input(prefixes, order, naming, shift=i)
+                bpt = (10.0, 2.5, 33.3)[i % 3] if not quick else 10.0
+                n = len(inp)
+                pairs = [(a, b) for a in range(n) for b in range(n) if a != b]
+                if quick:
+                    pairs = [pairs[(5 * i + j * 7) % len(pairs)] for j in range(2)]
+                maps = []
+                for pi, (a, b) in enumerate(pairs):
+                    tagsets = OUTSIDE_TAGS if not quick else [OUTSIDE_TAGS[(i + pi + j) % 5] for j in (0, 2)]
+                    for ti, tags in enumerate(tagsets):
+                        maps.append(joined_map(inp, bpt, a, b, orient[(i + pi + ti) % 4], tags, (i + pi + ti) % 3 == 0))
+                for a in range(n) if not quick else [i % n]:
+                    for ti, tags in enumerate(OUTSIDE_TAGS if not quick else [OUTSIDE_TAGS[(i + 1) % 5]]):
+                        maps.append(broken_map(inp, bpt, a, tags, (i + ti) % 2 == 1))
+                for k, (mp, _) in enumerate(pg.scripts_for(inp, bpt, rng, 2 if quick else 5, max_cuts=2, painted_p=0.3)):
+                    maps.append(tag_source(mp, inp[(i + k) % n]["name"], OUTSIDE_TAGS[(i + k) % 5]))
+                for k, mp in enumerate(maps):
+                    yield {"input": inp, "map": mp, "prefix": "SUPER_", "via": pg.pick_via(inp, i + k)}
+
+
+# --------------------------------------------------------------------------------------------------
+# gap-run families: contigs separated by several consecutive gap rows
+# --------------------------------------------------------------------------------------------------
+
+GAP_RUNS = [
+    [(100, "contig"), (200, "scaffold")],
+    [(200, "scaffold"), (200, "scaffold")],
+    [(1, "contig"), (10, "scaffold"), (9, "contig")],
+    [(10, "scaffold"), (1, "contig"), (1, "contig"), (28, "scaffold")],
+]
+
+
+def gaprun_scaffold(name, lengths, strands, runs, naming, tag=""):
+    """as pg.make_scaffold, but between contigs j and j + 1 lies the run of gap rows runs[j] (a list of (length, type); [] = abut)"""
+    gaps = [(sum(g[0] for g in run), "scaffold") if run else None for run in runs]
+    sc = pg.make_scaffold(name, lengths, strands, gaps, naming, tag=tag)
+    it = iter(run for run in runs if run)
+    rows = []
+    for r in sc["rows"]:
+        if r[0] == "G":
+            rows.extend(pg.G(*g) for g in next(it))
+        else:
+            rows.append(r)
+    return {"name": name, "rows": rows}
+
+
+def run_cuts(rows, bpt):
+    """for every run of >= 2 gap rows between two contigs the texel boundary nearest to its middle"""
+    cuts = []
+    pos = 0
+    start = n_gaps = 0
+    seen_frag = False
+    for r in rows:
+        if r[0] == "G":
+            if not n_gaps:
+                start = pos
+            n_gaps += 1
+        else:
+            if seen_frag and n_gaps >= 2:
+                cuts.append(round(Fraction(start + pos, 2) / pg.bptF(bpt)))
+            seen_frag = True
+            n_gaps = 0
+        pos += pg.row_len(r)
+    return cuts
+
+
+def with_gap_runs(inp, rng):
+    """the input with gap rows of >= 2 bp split (p 0.7) into 2-4 consecutive gap rows of the same total length, types drawn anew"""
+    out = []
+    for sc in inp:
+        rows = []
+        for r in sc["rows"]:
+            if r[0] == "G" and r[1] >= 2 and rng.random() < 0.7:
+                k = min(r[1], rng.choice((2, 2, 3, 4)))
+                marks = sorted(rng.sample(range(1, r[1]), k - 1))
+                for x, y in itertools.pairwise([0, *marks, r[1]]):
+                    rows.append(pg.G(y - x, rng.choice(("scaffold", "contig"))))
+            else:
+                rows.append(r)
+        out.append({"name": sc["name"], "rows": rows})
+    return out
+
+
+def gaprun_cases(tier, rng):
+    """
+    enumerated: one scaffold of two contigs around each run of GAP_RUNS, or of three contigs around (run, single gap),
+    (no gap, run) and (run, next run), every strand tuple (quick: the four patterns), names own / fasta / offset in
+    rotation, alone or before / after a second two-contig scaffold (with a run of its own); maps: whole, reversed, and for
+    every run the two pieces of a cut in its middle in EVERY order x orientation x grouping (quick: four of the sixteen,
+    rotating), the second scaffold whole before, after or between; plus seeded edit scripts.
+    seeded: the 2-3 scaffold inputs of pipeline_gen with their gaps split into runs, two seeded edit scripts each.
+    """
+    quick = tier == "quick"
+    i = 0
+    for bpt in (10.0,) if quick else (10.0, 2.5):
+        t = math.ceil(bpt)
+        long1, long2, short = 6 * t, 4 * t, max(2, math.floor(0.7 * bpt))
+        geoms = [((long1, long2), [run]) for run in GAP_RUNS]
+        for j, run in enumerate(GAP_RUNS):
+            nxt = GAP_RUNS[(j + 1) % len(GAP_RUNS)]
+            geoms += [((long2, long1, long2), [run, [(t, "scaffold")]]), ((long2, short, long1), [[], run]), ((long2, long2, long2), [run, nxt])]
+        for lt, runs in geoms:
+            k = len(lt)
+            for sp in itertools.product((1, -1), repeat=k) if not quick else pg.strand_patterns(k):
+                i += 1
+                if quick and k == 3 and i % 2:
+                    continue
+                naming = ("own", "fasta", "offset")[i % 3]
+                sc = gaprun_scaffold("scaffold_1", lt, sp, runs, naming, tag="1")
+                second = gaprun_scaffold("scaffold_2", (long2, long2), (1, -1) if i % 2 else (1, 1), [GAP_RUNS[i % len(GAP_RUNS)]], "own", tag="2")
+                inp = ([sc], [sc, second], [second, sc])[i % 3]
+                maps = [whole_map(inp, bpt, 1, i % 2 == 0), whole_map(inp, bpt, -1, i % 2 == 1)]
+                other = [[[*whole_piece(second, bpt), 1 if i % 4 < 2 else -1, []]]] if len(inp) > 1 else []
+                for c in run_cuts(sc["rows"], bpt):
+                    pcs = pg.pieces_of(sc, bpt, "ceil", (c,))
+                    arrs = pg.ALL_ARRANGEMENTS[2]
+                    for ai, arr in enumerate(arrs if not quick else [arrs[(5 * i + 3 * j) % len(arrs)] for j in range(4)]):
+                        scs = pg.arrange(pcs, arr, [(i + ai) % 3 == 0] * len(arr[2]))
+                        where = (i + ai) % (len(scs) + 1)
+                        maps.append({"bpt": bpt, "scaffolds": scs[:where] + other + scs[where:]})
+                for mp, _ in pg.scripts_for(inp, bpt, rng, 1 if quick else 4, max_cuts=2, painted_p=0.3):
+                    maps.append(mp)
+                for mk, mp in enumerate(maps):
+                    yield {"input": inp, "map": mp, "prefix": "SUPER_", "via": pg.pick_via(inp, i + mk)}
+    for n, inp in enumerate(pg.multi_scaffold_inputs(rng, 60 if quick else 4000, clean_ends=True)):
+        inp = with_gap_runs(inp, rng)
+        bpt = rng.choice(pg.BPTS)
+        for mp, _ in pg.scripts_for(inp, bpt, rng, 2, max_cuts=2):
+            yield {"input": inp, "map": mp, "prefix": "SUPER_", "via": pg.pick_via(inp, n)}
+
 
 def add_tags(case, rng):
     """Haplotig on three pieces in ten, Contaminant / FalseDuplicate on six in a hundred each (one rng call per piece)"""
@@ -436,19 +646,25 @@ def _run(tier, seed, **opts):
         "scaffold, tagged or untagged flanks, three groupings, both strands; seeded: 2-3 scaffold and sub-texel-run inputs "
         "split within one error length of row boundaries, random tags; and perturbations of these), and the prefix families "
         "(input assemblies of 2-3 haplotypes named by contig-name prefixes, multi-contig scaffolds, every interleaving of the "
-        "haplotypes' scaffolds, under null, reversed and seeded edit maps); oracle: independent "
-        "recount over unordered pairs of facing contig ends, and the haplotig removals read from the info.yaml written for "
-        "the run (every case whose map carries a Haplotig / Contaminant / FalseDuplicate tag, and one in 41 of the others) "
+        "haplotypes' scaffolds, under null, reversed and seeded edit maps), the outside families (prefix inputs; two whole "
+        "scaffolds joined in one Pretext scaffold, a scaffold broken at its gaps, or all pieces of one input scaffold, tagged "
+        "Contaminant / FalseDuplicate / Haplotig / nothing / a haplotype no input contig is named for) and the gap-run families "
+        "(contigs separated by runs of 2-4 consecutive gap rows; whole, reversed, cut inside each run with the two pieces in every "
+        "order x orientation x grouping, seeded scripts); oracle: independent "
+        "recount over unordered pairs of facing contig ends, judged against the statistics object and, when the info.yaml "
+        "written for the run is read (every prefix / outside case, every case whose map carries a Haplotig / Contaminant / "
+        "FalseDuplicate tag, one in 5 of the gap-run cases and one in 41 of the others), against its top-level manual_breaks / "
+        "manual_joins where present; and the haplotig removals of that file "
         "against the scaffolds of the Haplotig assembly; non-trivial = distinct completed case with cuts + breaks + joins "
         "> 0, a reversed piece, or a Haplotig-tagged piece"
     )
     stats = {"errors": 0, "yaml read": 0, "haplotig pieces != haplotig scaffolds": 0}
     n = 0
 
-    def one(case, fam, model=True):
+    def one(case, fam, model=True, yaml=False):
         nonlocal n
         n += 1
-        case = {**case, "yaml": n % 41 == 0 or has_special_tag(case), "model": model}
+        case = {**case, "yaml": yaml or n % 41 == 0 or has_special_tag(case), "model": model}
         r = check(case, col)
         if r is None:
             stats["errors"] += 1
@@ -508,7 +724,22 @@ def _run(tier, seed, **opts):
         if col.full:
             break
         prefix_n += 1
-        one(case, "prefix", model=False)
+        one(case, "prefix", model=False, yaml=True)
+    # ... and so have the outside and the gap-run families
+    rng4 = random.Random(seed * 1000003 + 13)
+    outside_n = 0
+    for case in outside_cases(tier, rng4):
+        if col.full:
+            break
+        outside_n += 1
+        one(case, "outside", model=False, yaml=True)
+    rng5 = random.Random(seed * 1000003 + 14)
+    gaprun_n = 0
+    for case in gaprun_cases(tier, rng5):
+        if col.full:
+            break
+        gaprun_n += 1
+        one(case, "gap run", model=False, yaml=gaprun_n % 5 == 0)
     return col.result(
         bounds=(
             "input: 1-3 scaffolds x 1-6 contigs, contig lengths from {1,2,7,12,40,150,400,1000}, gaps none/1/10/20/25/200, both "
@@ -520,6 +751,10 @@ def _run(tier, seed, **opts):
             f"{TAG_PATTERNS_QUICK if tier == 'quick' else TAG_PATTERNS_THOROUGH}; "
             f"prefix scope ({prefix_n} cases): 2-3 haplotype prefixes from {PREFIX_SETS}, {'(2,2) / (2,1,1) / (1,2)' if tier == 'quick' else '1-3'} scaffolds of 2-3 contigs "
             "each, every interleaving, null / reversed / seeded edit maps; "
+            f"outside scope ({outside_n} cases): {'(2,2) / (2,1,1), two interleavings' if tier == 'quick' else 'every count vector with <= 4 scaffolds, every interleaving'}, "
+            f"pairs joined / scaffolds broken / sources tagged with {[t[0] if t else '-' for t in OUTSIDE_TAGS]}; "
+            f"gap-run scope ({gaprun_n} cases): runs {GAP_RUNS} between contigs of 6 / 4 / 0.7 texels at {[10.0] if tier == 'quick' else [10.0, 2.5]} bp/texel, "
+            "and gaps of seeded 2-3 scaffold inputs split into 2-4 rows; "
             f"runs ending in an error (not judged): {stats['errors']}; per family: "
             + ", ".join(f"{k}={v}" for k, v in sorted(stats.items()) if k != "errors")
         ),
